@@ -40,7 +40,7 @@ LowSEquiv == stage = 2 /\ S.kind = "sig" =>
 WrongKeyRejects == stage = 2 /\ S.kind = "sig" =>
                \A d2 \in {1, 2, N - 1} \ {d} : ~Verify(PubKey(d2), e, S.r, S.s)
                    \/ \* a second key accepting the same (e, r, s) is one of the recoverable keys
-                      PubKey(d2) \in Recover(S.r, S.s, e)
+                      PubKey(d2) \in RecoverAll(S.r, S.s, e)
 RecoverSoundComplete == stage = 2 /\ S.kind = "sig" /\ H = 1 /\ MulDA(k, G)[1] < N =>
                LET rec == Recover(S.r, S.s, e)
                IN  /\ Q \in rec
